@@ -54,4 +54,10 @@ End Render.
 Definition doc_parse (norm : str -> str) (s : str) : res (list node) :=
   do (toks, rf) <- block_parse CB (norm s);
   all_res (map (inline_pass (CI (inline_refs rf))) toks).
+
+(* the same with the reference table the block pass collected (state.env['ref_links'], for renderers that print it) *)
+Definition doc_parse_rf (norm : str -> str) (s : str) : res (list node * refs) :=
+  do (toks, rf) <- block_parse CB (norm s);
+  do ast <- all_res (map (inline_pass (CI (inline_refs rf))) toks);
+  Ok (ast, rf).
 End Doc.
